@@ -154,3 +154,34 @@ extern "C" void h_cancel(void) {
     if (a >= 0) { auto* s = vk::pending_write(); vk_assert(s != nullptr, "restarted client writes"); w->finish_write(s, s->wdata.size(), {}); vk::drain(); vk_assert(w->ops[a].done == 1 && w->ops[a].ec == 0, "publish on the restarted client completes"); vk_reach("restarted"); }
   }
 }
+
+// cancel() / async_disconnect / destruction striking in the middle of a connection attempt (first connect or reconnect), at every
+// boundary between two completion handlers: after the resolve, the TCP connect, the CONNECT write, the CONNACK, and between any
+// two of the handlers these completions queue (e.g. between the accepted CONNACK and the installation of the new stream).
+static bool cut_drain() { while (vk::world().q_head) { if (vk_choose(2)) return true; vk::run_one(); } return false; }
+extern "C" void h_cancel_handshake(void) {
+  X* x = new X(); W* w = x->w;
+  bool first = vk_choose(2);
+  w->c.brokers("a", 1883);
+  w->in_api = true; w->c.async_run([w](error_code ec) { w->run_done++; w->run_ec = ec.value(); }); w->in_api = false;
+  bool strike = false;
+  if (first) { w->receive(); if (vk_choose(2)) { w->publish<qos_e::at_least_once>("t", "p"); x->nops_started++; } strike = cut_drain(); }
+  else {
+    vk::drain(); w->connect_ok(); w->receive();
+    if (vk_choose(2)) { w->publish<qos_e::at_least_once>("t", "p"); x->nops_started++; vk::drain(); if (vk_choose(2)) if (auto* s = vk::pending_write()) { w->finish_write(s, s->wdata.size(), {}); vk::drain(); } }
+    w->drop_connection(); strike = cut_drain();
+    // a reconnect that wrapped around the broker list pauses on the connect timer first
+    if (!strike && !vk::pending_resolve() && !vk::pending_connect()) { vk::timer_rec* t = vk::world().timers.size() > 1 ? vk::world().timers[1] : nullptr; if (t && t->armed && vk::timer_can_fire(t)) { vk::timer_fire(t); strike = cut_drain(); } }
+  }
+  int stage = 0;
+  if (!strike) { if (auto* r = vk::pending_resolve()) { vk::complete_resolve(r, {}, 1); stage = 1; strike = cut_drain(); } }
+  if (!strike) { if (auto* s = vk::pending_connect()) { vk::complete_connect(s, {}); w->new_connection(); stage = 2; strike = cut_drain(); } }
+  if (!strike && stage == 2) { if (auto* s = vk::pending_write()) { w->finish_write(s, s->wdata.size(), {}); stage = 3; strike = cut_drain(); } }
+  if (!strike && stage == 3) { w->send_connack(!first, 0, nullptr, 0); stage = 4; for (int g = 0; g < 8 && !strike && w->out_avail() && vk::pending_read(); g++) { w->feed(w->out_avail()); strike = cut_drain(); } if (strike && !w->out_avail()) vk_reach("struck-after-connack"); }
+  if (strike) vk_reach("struck-mid-handshake");
+  vk_event(30 + stage, strike);
+  x->ev_stop(); vk::drain();
+  vk_event(40, w->nops);
+  vk_assert(all_quiet(), "handlers are still queued");
+  x->check();
+}
